@@ -128,6 +128,8 @@ def tables_check(pr):
 
 FALLBACK = ['I', 'uint32', 0]
 
+REPEATABLE = ('simp', 'exprapi', 'asm', 'asm_att', 'dis', 'lift', 'render')
+
 class World(object):
     def __init__(self, mode):
         self.mode = mode            # 'inter' | 'iso'
@@ -194,14 +196,17 @@ class World(object):
         if self.mode == 'inter' and kind in ('step', 'affs', 'eval', 'get_reg', 'dump', 'clone') and len(self.machines) > 1:
             mine = op.get('m')
             others = [(k, canon.ser_machine(mm)) for k, mm in sorted(self.machines.items()) if k != mine]
-        try:
-            r = getattr(self, 'op_' + kind)(idx, op, resolved, mut)
-        except Budget:
-            r = ['BUDGET']
-        except RecursionError:
-            r = ['EXC', 'RecursionError']
-        except Exception as e:
-            r = canon.exc_tag(e)
+        # a stateless call may be repeated (a caller's retry loop); what is recorded is the last answer
+        for _ in range(op.get('rep', 1) if kind in REPEATABLE else 1):
+            reset_budget()
+            try:
+                r = getattr(self, 'op_' + kind)(idx, op, resolved, mut)
+            except Budget:
+                r = ['BUDGET']
+            except RecursionError:
+                r = ['EXC', 'RecursionError']
+            except Exception as e:
+                r = canon.exc_tag(e)
         if others:
             for k, before in others:
                 if k in self.machines and canon.ser_machine(self.machines[k]) != before:
@@ -985,6 +990,39 @@ def call_styles(ops):
             op['xattr'] = rng2.choice([0, 32])      # explicit (empty / fully spelt) attribute dictionary
         elif k == 'asm':
             op['symoff'] = 1            # explicit symbol-offset output list
+    # calls that raise part-way: ill-typed expressions (a narrow operand meets a wide one, at the top or only after a
+    # rewrite has happened), and bursts of one stateless call repeated - whatever a failure leaves behind accumulates
+    pbad = rng2.choice([0.0, 0.0, 0.1, 0.3])
+    prep = rng2.choice([0.0, 0.0, 0.05, 0.2])
+    regs = [['D', n, 32, False, True] for n in gen.REGS32[:4]]
+    for op in ops:
+        k = op['op']
+        if k in ('simp', 'eval', 'exprapi') and isinstance(op.get('e'), list) and rng2.random() < pbad:
+            op['e'] = ill_typed(rng2, op['e'], regs)
+        if k in REPEATABLE and rng2.random() < prep:
+            op['rep'] = rng2.choice([2, 3, 20, 40])
+    if rng2.random() < 0.15:
+        # a retry storm: ONE ill-typed simplification repeated many times, early enough for later calls to feel it
+        cands = [i for i, op in enumerate(ops[:max(1, len(ops) * 2 // 3)]) if op['op'] in ('simp', 'exprapi') and isinstance(op.get('e'), list)]
+        if cands:
+            op = ops[rng2.choice(cands)]
+            op['e'] = ill_typed(rng2, op['e'], regs)
+            op['rep'] = rng2.choice([20, 40, 40, 64])
+
+def ill_typed(rng, e, regs):
+    narrow = rng.choice([['I', 'uint8', rng.choice([1, 2, 5])], ['S', rng.choice(regs), 0, 16], ['I', 'uint16', 0x100]])
+    shape = rng.randrange(5)
+    if shape == 0:
+        return ['O', rng.choice(['+', '^', '&']), [e, narrow]]
+    bad = ['O', '-', [['O', '+', [rng.choice(regs), narrow]]]]
+    deep = ['O', '-', [['O', '+', [e, ['I', 'uint32', rng.choice([2, 3, 7])]]], ['O', '-', [rng.choice(regs), bad]]]]
+    if shape == 1:
+        return deep
+    if shape == 2:
+        return ['O', '-', [['I', 'uint32', rng.choice([0, 1, 9])], deep]]
+    if shape == 3:
+        return ['?', deep, e, rng.choice(regs)]
+    return ['M', deep, 32, None, False]
 
 # ------------------------------------------------------------- repair of refs
 
